@@ -8,11 +8,11 @@ Three layers:
  (iii) `specSplit` = the automaton run over the whole stream from the initial state.
 Import-free (core only) so that the driver links as a `lean_exe`.
 -/
-import XetModel.Generated.Consts
+import XetModel.Hash
 
 namespace Xet
 
-abbrev Bytes := List UInt8
+
 
 namespace Chunker
 
